@@ -1,10 +1,10 @@
 #!/bin/sh
-# tools/take_seeds.sh <ID> [offset]  — copy /tmp/mut3-<ID>/out/{1,2,3} to seeded/<ID>-{4,5,6}, drop the worktree
+# tools/take_seeds.sh <ID> [offset]  — copy /tmp/mut${W:-3}-<ID>/out/{1,2,3} to seeded/<ID>-{4,5,6}, drop the worktree
 id=$1; off=${2:-3}
 for k in 1 2 3; do
   n=$((k+off)); mkdir -p /verif/seeded/$id-$n
-  cp /tmp/mut3-$id/out/$k/patch.diff /tmp/mut3-$id/out/$k/demo.diff /verif/seeded/$id-$n/ || echo "MISSING files for $id $k"
-  cp /tmp/mut3-$id/out/$k/README.md /verif/seeded/$id-$n/ 2>/dev/null
+  cp /tmp/mut${W:-3}-$id/out/$k/patch.diff /tmp/mut${W:-3}-$id/out/$k/demo.diff /verif/seeded/$id-$n/ || echo "MISSING files for $id $k"
+  cp /tmp/mut${W:-3}-$id/out/$k/README.md /verif/seeded/$id-$n/ 2>/dev/null
 done
-git -C /repo worktree remove --force /tmp/mut3-$id; rm -rf /tmp/mut3-$id
-echo "/verif/seeded/$id-4 /verif/seeded/$id-5 /verif/seeded/$id-6"
+git -C /repo worktree remove --force /tmp/mut${W:-3}-$id; rm -rf /tmp/mut${W:-3}-$id
+echo "/verif/seeded/$id-$((1+off)) /verif/seeded/$id-$((2+off)) /verif/seeded/$id-$((3+off))"
